@@ -321,6 +321,8 @@ def compare_lazy(mo, payload):
     if areas0 is not None:
         if mar is None or got_areas is None or [float(Fraction(n, dd)) for n, dd in mar] != got_areas:
             return "supplied face_areas after the reads: model %s impl %s" % (str(mar)[:100], str(got_areas)[:100])
+    elif (mar is None) != (got_areas is None):
+        return "face_areas stored: model %s impl %s" % (mar is not None, got_areas is not None)
     return None
 
 
@@ -587,6 +589,16 @@ def sweep_cases(rng, tier):
                 if dual and not am.closed:
                     continue
                 c = _mk("mpas", S.mpas_dialect(rng, am, force={"dual": dual, "opt": True, "xyz": True}), am, "sweep")
+                c["order"] = o
+                out.append(c)
+    # SCRIP grid_area / ESMF elementArea (present and absent) under every access order, everything derived after
+    for am in (by["cube"], by["quad+tri"], by["octa+tri@am"]):
+        for o in range(len(ORDERS)):
+            c = _mk("scrip", S.scrip_dialect(rng, am, force={"extra_w": o % 2}), am, "sweep")
+            c["order"] = o
+            out.append(c)
+            for areas in (True, False):
+                c = _mk("esmf", S.esmf_dialect(rng, am, force={"areas": areas, "start": rng.choice([None, 0, 1])}), am, "sweep")
                 c["order"] = o
                 out.append(c)
     # GEOS-CS
@@ -976,9 +988,10 @@ def run_case(ck, c, stats, collect):
                         or ck.tier == "thorough" and c.get("kind") == "sweep"):
                     derive_all(g, seed, ck.tier == "thorough")
                     stats["derived_all"] = stats.get("derived_all", 0) + 1
-                    if collect is not None and "areas" in ex.aux:
-                        # longitudes come from the source here: they must stay what the freshly built grid held
-                        lazy = lazy_job(g, ORDERS[order] + DERIVED, [], ex.aux["areas"], lon0=fp1["node_lon"][0].tolist())
+                    if collect is not None and fmt in ("mpas", "scrip", "esmf") and "node_lon" in fp1:
+                        # longitudes come from the source here: they must stay what the freshly built grid held;
+                        # supplied areas stay, absent ones are derived by the first face_areas / face_jacobian read
+                        lazy = lazy_job(g, ORDERS[order] + DERIVED, [], ex.aux.get("areas"), lon0=fp1["node_lon"][0].tolist())
                     for cl, det in spec_check(ex, g):
                         if cl not in seen:
                             fails.append(("after_reads_" + cl, det))
